@@ -9,10 +9,12 @@ python3 -c "import sys; sys.path.insert(0, \"lib\"); import framework; framework
 ( cd coq && timeout 7200 make -j16 2>&1 | grep -v '^WARNING conda' | tail -5 )
 timeout 3000 ./driver/build.sh
 ( cd harness && RUSTFLAGS="--cfg hasenbanck_lzma_rust2_verif" timeout 3000 cargo build --offline --release 2>&1 | tail -2 )
+# the overflow-checked profile (C11, C13, C17, C19)
+( cd harness && RUSTFLAGS="--cfg hasenbanck_lzma_rust2_verif" timeout 3000 cargo build --offline --profile checked 2>&1 | tail -1 )
 # the other feature configurations of the crate (C14): std without optimization, no_std with/without optimization
-( cd harness && RUSTFLAGS="--cfg hasenbanck_lzma_rust2_verif" CARGO_TARGET_DIR=/verif/build/cargo-noopt timeout 3000 cargo build --offline --release --no-default-features 2>&1 | tail -1 )
-( cd harness-nostd && RUSTFLAGS="--cfg hasenbanck_lzma_rust2_verif" CARGO_TARGET_DIR=/verif/build/cargo-nostd-opt timeout 3000 cargo build --offline --release 2>&1 | tail -1 )
-( cd harness-nostd && RUSTFLAGS="--cfg hasenbanck_lzma_rust2_verif" CARGO_TARGET_DIR=/verif/build/cargo-nostd timeout 3000 cargo build --offline --release --no-default-features 2>&1 | tail -1 )
+( cd harness && RUSTFLAGS="--cfg hasenbanck_lzma_rust2_verif" CARGO_TARGET_DIR="$(pwd)/../build/cargo-noopt" timeout 3000 cargo build --offline --release --no-default-features 2>&1 | tail -1 )
+( cd harness-nostd && RUSTFLAGS="--cfg hasenbanck_lzma_rust2_verif" CARGO_TARGET_DIR="$(pwd)/../build/cargo-nostd-opt" timeout 3000 cargo build --offline --release 2>&1 | tail -1 )
+( cd harness-nostd && RUSTFLAGS="--cfg hasenbanck_lzma_rust2_verif" CARGO_TARGET_DIR="$(pwd)/../build/cargo-nostd" timeout 3000 cargo build --offline --release --no-default-features 2>&1 | tail -1 )
 # independent re-check of the property theorems and the axioms they rely on (informational log)
 ( cd coq && timeout 3000 coqchk -silent -o -Q . LzVerif $(ls Properties/*.vo | sed 's|/|.|g; s|\.vo$||; s|^|LzVerif.|') > ../build/coqchk.log 2>&1 || true )
 tail -5 build/coqchk.log || true
